@@ -42,6 +42,25 @@ def _run_one(args):
         shutil.rmtree(d, ignore_errors=True)
 
 
+def _run_patch(args):
+    pid, name, patch, base = args
+    d = tempfile.mkdtemp(prefix="ben-", dir=base)
+    try:
+        shutil.copytree(os.path.join(REPO, "src"), os.path.join(d, "src"))
+        shutil.copy(os.path.join(REPO, "CMakeLists.txt"), os.path.join(d, "CMakeLists.txt"))
+        a = subprocess.run(["git", "apply", "--unsafe-paths", "--directory=" + d, patch], capture_output=True, text=True, cwd="/")
+        if a.returncode != 0:
+            a = subprocess.run(["patch", "-p1", "-s", "-d", d, "-i", patch], capture_output=True, text=True)
+            if a.returncode != 0:
+                return (name, "skipped", "patch does not apply to the current tree")
+        env = dict(os.environ, VERIF_REPO=d, VERIF_SELFTEST="1", VERIF_TIER="quick")
+        r = subprocess.run([sys.executable, os.path.join(VERIF, "bin", "check.py"), pid, "--tier", "quick"], capture_output=True, text=True, env=env)
+        first = next((l for l in r.stdout.splitlines() if ": rule " in l or l.startswith("ANALYSIS-BROKEN")), "")
+        return (name, r.returncode, first[:300])
+    finally:
+        shutil.rmtree(d, ignore_errors=True)
+
+
 def run_for(chk, pid):
     """adds one obligation per applicable corpus entry to chk"""
     corpus = load_corpus()
@@ -68,5 +87,19 @@ def run_for(chk, pid):
                 chk.ob(pid + ".selftest-benign", "edit %s (%s)" % (m["id"], m["file"]), ok, m["file"], key="benign:" + m["id"],
                        detail="" if ok else "behaviour-preserving edit raised an alarm: exit %s %s %s" % (rc, info["rules"], info["first"]))
                 results.append(dict(id=m["id"], verdict="silent" if ok else "FALSE-ALARM", exit=rc, rules=info["rules"]))
+    # behaviour-preserving refactorings written by independent sub-agents (benign/<id>/patch.diff)
+    bdir = os.path.join(VERIF, "benign")
+    if os.path.isdir(bdir):
+        chk.rule(pid + ".selftest-refactoring", "thorough tier: an independently written behaviour-preserving refactoring leaves this check silent")
+        jobs = [(pid, n, os.path.join(bdir, n, "patch.diff"), base) for n in sorted(os.listdir(bdir)) if os.path.exists(os.path.join(bdir, n, "patch.diff"))]
+        with concurrent.futures.ThreadPoolExecutor(max_workers=8) as ex:
+            for name, rc, info in ex.map(_run_patch, jobs):
+                if rc == "skipped":
+                    results.append(dict(id="refactoring:" + name, verdict="skipped", why=info))
+                    continue
+                ok = rc == 0
+                chk.ob(pid + ".selftest-refactoring", "refactoring %s" % name, ok, "benign/%s/patch.diff" % name, key="refactoring:" + name,
+                       detail="" if ok else "alarm on a behaviour-preserving refactoring: exit %s %s" % (rc, info))
+                results.append(dict(id="refactoring:" + name, verdict="silent" if ok else "FALSE-ALARM", exit=rc))
     chk.extra["corpus"] = results
     return results
